@@ -182,6 +182,23 @@ def form_lines(st):
         # a top-level module next to the package: importable only while the directory
         # xdoctest adds temporarily is (still) on sys.path
         return _L("try:", "    import simsibling", "    S.emit('%s')" % p[0], "except ImportError:", "    S.emit('%s')" % p[1])
+    if f == 'keepout':
+        # the code under test remembers the stream it finds in sys.stdout ...
+        return _L("_out%d = sys.stdout" % i)
+    if f == 'writeout':
+        # ... and writes through that reference later (a logging handler does this)
+        return _L("_ = _out%d.write(str(S.op('%s')) + chr(10))" % (st['ref'], p[0]))
+    if f == 'const':
+        # a statement with no point in it: the same text wherever it appears
+        return _L("sim_k = 1")
+    if f == 'withswap':
+        # redirects sys.stdout into a file for the length of a block and never puts it back
+        return _L("with open(os.devnull, 'w') as _f%d:" % i, "    sys.stdout = _f%d" % i, "    sim_ws%d = S.op('%s')" % (i, p[0]))
+    if f == 'defreprclass':
+        # a class of the doctest whose repr needs a name the doctest defines
+        return _L("class SimR%d:" % i, "    def __repr__(self):", "        return 'R' + str(sim_rname%d)" % i, "sim_rname%d = 7" % i)
+    if f == 'reprexpr':
+        return _L("SimR%d()" % st['ref'])
     if f == 'badcompile':
         return _L(st.get('text', 'return 5'))
     if f == 'strdirective':
@@ -194,7 +211,7 @@ def form_lines(st):
 def form_out(st):
     f = st['form']
     p = st.get('pts', [])
-    if f in ('print', 'emit', 'write', 'awaitprint', 'callhelper_emit', 'emitop'):
+    if f in ('print', 'emit', 'write', 'awaitprint', 'callhelper_emit', 'emitop', 'writeout'):
         return [tok(p[0]) + '\n']
     if f == 'say':
         return [st.get('text', 'ok') + '\n']
@@ -217,9 +234,9 @@ def form_out(st):
     return []
 
 
-EXPR_FORMS = {'expr', 'print', 'emit', 'emitnoeol', 'coroexpr', 'say', 'multiline', 'semiemit', 'tqprint', 'callhelper_expr', 'callhelper_emit',
+EXPR_FORMS = {'expr', 'print', 'emit', 'emitnoeol', 'coroexpr', 'reprexpr', 'say', 'multiline', 'semiemit', 'tqprint', 'callhelper_expr', 'callhelper_emit',
               'callmod_expr', 'awaitexpr', 'awaitprint', 'names', 'emitop'}
-VALUE_FORMS = {'expr': 0, 'multiline': 0, 'callhelper_expr': 0, 'callmod_expr': 0, 'awaitexpr': 0, 'emitop': 0}
+VALUE_FORMS = {'expr': 0, 'multiline': 0, 'callhelper_expr': 0, 'callmod_expr': 0, 'awaitexpr': 0, 'emitop': 0, 'reprexpr': 0}
 NOCODE_FORMS = {'comment', 'directive', 'blankprompt'}
 ASYNC_FORMS = {'await', 'awaitexpr', 'awaitprint', 'gather', 'asyncwith', 'asyncfor', 'awaitco', 'bgtask'}
 
@@ -229,6 +246,8 @@ def is_expr(st):
 
 
 def value_repr(st):
+    if st['form'] == 'reprexpr':
+        return 'R7'
     if st['form'] in VALUE_FORMS:
         return '<%s>' % tok(st['pts'][0])
     return None
@@ -287,6 +306,12 @@ def want_lines_for(st, window_nominal):
             lines = [TB_HEADER, '  File "<sim>", line 1, in <module>', '    whatever()', last]
         elif w == 'tbbare':
             lines = [TB_HEADER, last]
+        elif w == 'tbell2':
+            # two ellipses; the piece between them occurs in the message only once, inside the
+            # text the trailing piece has to match: no way to lay the pieces out in order
+            head, sep, tail = last.partition(': ')
+            word = tail.split()[-1] if tail.split() else 'x'
+            lines = [TB_HEADER, '    ...', head + sep + tail.split()[0] + '...' + word + '...' + word]
         elif w == 'tbinner':
             # describes the exception that was being handled (the context), not the one raised
             lines = [TB_HEADER, '    ...', inner_last_line(st)]
